@@ -52,6 +52,16 @@ def proof_term(r):
                                       clist(r["qs"], wq), clist(r["obs"], obs_term))
 
 
+def balance(rs, cost, shard):
+    """reorder so that the contiguous shards cut by coq_eval get an even mix of cheap and expensive cases"""
+    rs = sorted(rs, key=cost, reverse=True)
+    ns = max(1, (len(rs) + shard - 1) // shard)
+    out = []
+    for j in range(ns):
+        out.extend(rs[j::ns])
+    return out
+
+
 def evaluate(ck, recs):
     roots = [r for r in recs if r["k"] == "root"]
     proofs = [r for r in recs if r["k"] == "proof"]
@@ -65,8 +75,10 @@ def evaluate(ck, recs):
             ck.failures.append(f)
     roots = [r for r in roots if not (r.get("panic") or r.get("err"))]
     proofs = [r for r in proofs if not (r.get("panic") or r.get("err"))]
-    rr = ck.coq_eval(IMPORTS, "root_case", "check_root", [root_term(r) for r in roots], shard=12, tag="root", timeout=1700)
-    rp = ck.coq_eval(IMPORTS, "proof_case", "check_proof", [proof_term(r) for r in proofs], shard=6, tag="proof", timeout=1700)
+    roots = balance(roots, lambda r: r["kl"] * (1 + sum(len(b) for b in r["batches"])), 6)
+    proofs = balance(proofs, lambda r: r["kl"] * (1 + len(r["obs"])) * (1 + len(r["keys"])), 3)
+    rr = ck.coq_eval(IMPORTS, "root_case", "check_root", [root_term(r) for r in roots], shard=6, tag="root", timeout=1700)
+    rp = ck.coq_eval(IMPORTS, "proof_case", "check_proof", [proof_term(r) for r in proofs], shard=3, tag="proof", timeout=1700)
     for rs, res, fn in ((roots, rr, "check_root"), (proofs, rp, "check_proof")):
         if res is None:
             continue
@@ -108,9 +120,9 @@ def run(ck):
     if not binp:
         return
     if ck.tier == "quick":
-        args = ["-nroot", "100", "-nproof", "100", "-nev", "20"]
+        args = ["-nroot", "40", "-nproof", "45", "-nev", "15", "-maxobs", "26"]
     else:
-        args = ["-nroot", "1500", "-nproof", "1500", "-nev", "200"]
+        args = ["-nroot", "800", "-nproof", "800", "-nev", "200", "-maxobs", "40"]
     recs = corpus(ck, binp)
     main = ck.run_harness(binp, args)
     if main is None:
@@ -128,7 +140,7 @@ def run(ck):
                       "batch, empty batch) over random, clustered (shared prefix up to the last 12 bits) and subtree-crossing keys of "
                       "1, 2, 4 and 32 bytes; trie re-created from its root (NewTrie(root)) before random batches; each final map also "
                       "inserted as one shuffled batch into a fresh trie; CalculateEventRoot on random events; proofs for 1..5 query keys "
-                      "(present, absent neighbours, absent random, duplicates), each with up to 40 single-field tamperings (root, value, "
+                      "(present, absent neighbours, absent random, duplicates), each with up to 26 (quick) / 40 (thorough) single-field tamperings (root, value, "
                       "query key bits, bitmap, requested key, each sibling hash changed/removed/added, query dropped, forged extra and "
                       "forged deeper queries). Evaluations = roots compared + verification observations; distinct = by full input.")
     ck.extra["traces_validated_against_impl"] = len(recs)
